@@ -241,6 +241,76 @@ def untrimmed_oracle(ctx, case, real):
                                         "the side with adapters is untrimmed)", case_input(case), dict(pair=k, in_main=k in main), dict(trimmed=trimmed)))
 
 
+def trimmed_filter_case(ctx):
+    """adapters for both reads + a trimmed/untrimmed filter (+ --pair-filter, + --revcomp): the pair decision combines 'an adapter was found in
+    this mate' of the two mates *as they are written* (with paired --revcomp: after the swap)"""
+    rng = ctx.rng
+    X, Y = "AAAGGGCCCTTTG", "TTTGGGAACCATC"
+    r1, r2 = [], []
+    for i in range(rng.randint(6, 10)):
+        b1, b2 = pipe.rs(rng, rng.randint(8, 16)), pipe.rs(rng, rng.randint(8, 16))
+        k = rng.random()
+        # as given: R1 carries X / R2 carries Y; "the other way round": R1 carries Y and R2 carries X (the swapped orientation wins); one-sided; none
+        if k < 0.3:
+            s1, s2 = b1 + X + pipe.rs(rng, 2), b2 + Y
+        elif k < 0.6:
+            s1, s2 = b1 + Y + pipe.rs(rng, 2), b2 + X
+        elif k < 0.7:
+            s1, s2 = b1 + X, b2
+        elif k < 0.8:
+            s1, s2 = b1, b2 + Y
+        elif k < 0.9:
+            s1, s2 = b1 + Y, b2
+        else:
+            s1, s2 = b1, b2
+        r1.append((f"r{i}", s1, "I" * len(s1)))
+        r2.append((f"r{i}", s2, "5" * len(s2)))
+    argv = ["--no-index"] if rng.random() < 0.5 else []
+    argv += ["-a", "a0=" + X, "-A", "b0=" + Y]
+    if rng.random() < 0.7:
+        argv.append("--revcomp")
+    filt = rng.choice(["--discard-untrimmed", "--discard-trimmed", "untrimmed-output"])
+    fargs = [filt] if filt != "untrimmed-output" else ["--untrimmed-output", "{dir}/ut1.fastq", "--untrimmed-paired-output", "{dir}/ut2.fastq"]
+    mode = rng.choice([None, "any", "both", "first"])
+    if mode:
+        fargs += ["--pair-filter", mode]
+    outs = ["-o", "{dir}/o1.fastq", "-p", "{dir}/o2.fastq"]
+    return dict(argv=argv + fargs + outs, paired=True, reads1=r1, reads2=r2, with_qual=True, interleaved_in=False,
+                tf=dict(base=argv + outs, filt=filt, mode=mode or "any"))
+
+
+def trimmed_filter_oracle(ctx, case, real):
+    if "error" in real or "tf" not in case:
+        return
+    tf = case["tf"]
+    _, plain = pipe.run_real(dict(case, argv=tf["base"]))
+    if "error" in plain:
+        return
+    src = {rid(a[0]): (a[1], b[1]) for a, b in zip(case["reads1"], case["reads2"])}
+    exp_main, exp_ut = [], []
+    for a, b in zip(plain["files"].get("o1.fastq", []), plain["files"].get("o2.fastq", [])):
+        s1, s2 = src[rid(a[0])]
+        if a[0].endswith(" rc"):
+            s1, s2 = s2, s1
+        # (the adapters remove at least one base, so a mate was trimmed exactly if its sequence differs from the mate it stems from)
+        t1, t2 = a[1] != s1, b[1] != s2
+        h1, h2 = (t1, t2) if tf["filt"] == "--discard-trimmed" else (not t1, not t2)
+        hit = (h1 or h2) if tf["mode"] == "any" else (h1 and h2) if tf["mode"] == "both" else h1
+        if not hit:
+            exp_main.append(rid(a[0]))
+        elif tf["filt"] == "untrimmed-output":
+            exp_ut.append(rid(a[0]))
+    got_main = [rid(r[0]) for r in real["files"].get("o1.fastq", [])]
+    got_ut = [rid(r[0]) for r in real["files"].get("ut1.fastq", [])]
+    ctx.count("trimmed-filter-checked")
+    if got_main != exp_main or got_ut != exp_ut:
+        ctx.failures.append(Failure("C05/trimmed-filter-pair-decision", "the trimmed/untrimmed filter does not combine 'adapter found in this mate' of the two mates as "
+                                    "written (paired --revcomp: after the swap) by the requested --pair-filter mode", case_input(case),
+                                    dict(main=got_main, untrimmed=got_ut), dict(main=exp_main, untrimmed=exp_ut)))
+    if any(r[0].endswith(" rc") for r in plain["files"].get("o1.fastq", [])):
+        ctx.nontriv(("swapped-pair-filtered", tuple(case["argv"])))
+
+
 def pair_adapters_oracle(ctx, case, real):
     argv = case["argv"]
     if "--pair-adapters" not in argv or "error" in real:
@@ -342,6 +412,11 @@ def run(ctx):
         ctx.count("directed-untrimmed")
         sync_oracle(ctx, case, res, real)
         untrimmed_oracle(ctx, case, real)
+    cs = [trimmed_filter_case(ctx) for _ in range(ctx.scale(40, 800))]
+    for case, res, real, model in pipe.run_cases(ctx, cs):
+        ctx.count("directed-trimmed-filter")
+        sync_oracle(ctx, case, res, real)
+        trimmed_filter_oracle(ctx, case, real)
     # --pair-adapters, trim only
     cs = []
     for _ in range(ctx.scale(40, 600)):
